@@ -8,6 +8,9 @@ CONSTANTS
   CtShape = "none"
   MaxSteps = 3
   Escaping = "asRequired"
+  Catalogue <- CatNone
+  MaxHist = 0
+  DecoderScope = "perIteration"
   CopyVariant = "lazyRef"
 INVARIANT Snapshot
 CHECK_DEADLOCK FALSE
